@@ -902,7 +902,14 @@ pixman_image_fill_boxes (pixman_op_t           op,
         op = PIXMAN_OP_SRC;
     }
 
-    if (op == PIXMAN_OP_SRC)
+    /* The direct fill writes raw pixel values into the image storage, so
+     * it can only stand in for compositing on plain destinations: no
+     * write/read accessors and no alpha map to receive the alpha channel.
+     */
+    if (op == PIXMAN_OP_SRC		&&
+	!dest->bits.read_func		&&
+	!dest->bits.write_func		&&
+	!dest->common.alpha_map)
     {
         uint32_t pixel;
 
